@@ -12,6 +12,9 @@ use clarabel::verif_hooks::*;
 use serde_json::{json, Value};
 
 const ALPHAMAX: [f64; 4] = [1.0, 0.99, 0.5, 1e-3];
+/// for the line search of the nonsymmetric cones also requested maxima below the minimum admissible step
+/// (1e-4 / 1e-8): the first trial, alpha_max itself, is always examined
+const ALPHAMAX_N: [f64; 6] = [1.0, 0.99, 0.5, 1e-3, 5e-5, 1e-9];
 
 fn spec(kind: &Kind) -> ConeSpec {
     match kind {
@@ -339,7 +342,7 @@ pub struct NonsymSteps {
 impl NonsymSteps {
     fn decode(&self, id: u64) -> (Vec<f64>, Vec<f64>, Vec<f64>, Vec<f64>, f64, f64, f64) {
         let mut dg = Digits(id);
-        let amax = *dg.pick(&ALPHAMAX);
+        let amax = *dg.pick(&ALPHAMAX_N);
         let (step, amin) = *dg.pick(&[(0.8, 1e-4), (0.5, 1e-4), (0.8, 1e-8)]);
         let dmag = *dg.pick(&[1.0, 1e-3, 1e3]);
         let n = self.kind.n();
@@ -371,14 +374,14 @@ impl Space for NonsymSteps {
         format!("nonsym-steps-{:?}", self.kind)
     }
     fn size(&self) -> u64 {
-        ALPHAMAX.len() as u64 * 3 * 3 * (ndirs(self.kind.n()) + (1u64 << self.kind.n())) * NPTS * COMMON_SCALES.len() as u64
+        ALPHAMAX_N.len() as u64 * 3 * 3 * (ndirs(self.kind.n()) + (1u64 << self.kind.n())) * NPTS * COMMON_SCALES.len() as u64
     }
     fn describe(&self, id: u64) -> Value {
         let (z, s, dz, ds, amax, step, amin) = self.decode(id);
         json!({"cone": format!("{:?}", self.kind), "z": z, "s": s, "dz": dz, "ds": ds, "alpha_max": amax, "backtrack_step": step, "alpha_min": amin})
     }
     fn bound(&self) -> Value {
-        json!({"points": NPTS, "directions": ndirs(self.kind.n()), "alpha_max": ALPHAMAX, "backtracking(step,alpha_min)": [[0.8,1e-4],[0.5,1e-4],[0.8,1e-8]]})
+        json!({"points": NPTS, "directions": ndirs(self.kind.n()), "alpha_max": ALPHAMAX_N, "backtracking(step,alpha_min)": [[0.8,1e-4],[0.5,1e-4],[0.8,1e-8]]})
     }
     fn run(&self, id: u64, ctx: &mut Ctx) -> CaseResult {
         let (z, s, dz, ds, amax, step, amin) = self.decode(id);
@@ -410,7 +413,7 @@ impl Space for NonsymSteps {
             if a > 0.0 {
                 let k = ((a / amax).ln() / step.ln()).round();
                 ensure!(k >= 0.0 && (amax * step.powf(k) - a).abs() <= 1e-12 * a, "step-not-a-backtracking-trial", "{}: alpha {:e} is not alpha_max*step^k", name, a);
-                ensure!(a >= amin * (1.0 - 1e-12), "step-below-alpha-min-but-nonzero", "{}: {:e} < {:e}", name, a, amin);
+                ensure!(k == 0.0 || a >= amin * (1.0 - 1e-12), "step-below-alpha-min-but-nonzero", "{}: {:e} < {:e}", name, a, amin);
                 if k >= 1.0 {
                     // not needlessly short: the previous trial must have failed
                     let prev = amax * step.powf(k - 1.0);
@@ -418,11 +421,15 @@ impl Space for NonsymSteps {
                     ctx.nontrivial += 1;
                 }
             } else {
-                // every admissible trial must have failed
+                // every admissible trial must have failed: alpha_max itself (always examined, also when it lies
+                // below the minimum step), then alpha_max*step^k for as long as that is at least alpha_min
                 let mut t = amax;
-                while t >= amin {
-                    ensure!(margin(t) <= 1e-10, "step-zero-although-a-trial-is-inside", "{}: trial {:e} has relative margin {:e}", name, t, margin(t));
+                loop {
+                    ensure!(margin(t) <= 1e-10, "step-zero-although-a-trial-is-inside", "{}: trial {:e} has relative margin {:e} (alpha_max {:e}, alpha_min {:e})", name, t, margin(t), amax, amin);
                     t *= step;
+                    if t < amin {
+                        break;
+                    }
                 }
                 ctx.outcome("zero-step");
             }
